@@ -2603,19 +2603,13 @@ func c13EmitFont(c *Ctx, f *c13Font, readers bool) {
 	}
 	out := Exec("cff.file.write font=" + desc)
 	if strings.HasPrefix(out, "ok:") {
-		if !c13SkipSpec {
-			c.Case(Direct, "cff.file.spec", "file="+out[3:]+" want="+desc, true)
-		}
+		c.Case(Direct, "cff.file.spec", "file="+out[3:]+" want="+desc, true)
 		if len(out) < 6000 {
 			c13ReadCases(c, c13HexMust(out[3:]), 1)
 		}
 	}
 }
 
-// c13SkipSpec: set while emitting fonts whose written file is known to differ from what TN5176 says
-// (finding: blue values more than 32767 apart are written as int16-wrapped deltas; only a reader that
-// wraps at 16 bits, like the library's own, recovers them)
-var c13SkipSpec bool
 
 // c13SweepFont: a tiny font whose section offsets are steered by the string lengths
 func c13SweepFont(r *Rng, lens [5]int, nFD int, variant int) *c13Font {
@@ -3081,8 +3075,9 @@ func c13GenCrossDefaults(c *Ctx) {
 }
 
 // ---------------------------------------------------------------------------------------
-// blue arrays with neighbouring values more than an int16 apart (seeded change C13-r6m1): the writer
-// stores int16-wrapped deltas, the reader adds them up in int16, so every int16 array comes back
+// blue arrays with neighbouring values more than an int16 apart (seeded change C13-r6m1; repair e13ef76):
+// the writer stores the plain differences, the reader adds them up modulo 2^16, the spec reader plainly:
+// every int16 array comes back from both
 
 func c13GenBlueGaps(c *Ctx) {
 	r := c.Rng
@@ -3132,10 +3127,8 @@ func c13GenBlueGaps(c *Ctx) {
 				}
 				prev = v
 			}
-			c.Stat("blue_gap", map[bool]string{true: "a delta outside int16 (written wrapped)", false: "all deltas int16"}[wraps])
-			c13SkipSpec = wraps
+			c.Stat("blue_gap", map[bool]string{true: "a delta outside int16", false: "all deltas int16"}[wraps])
 			c13EmitFont(c, f, true)
-			c13SkipSpec = false
 		}
 	}
 }
